@@ -45,6 +45,12 @@ class AbstractDenseTimeOnlineInterpreter(AbstractOnlineInterpreter, DenseTimeInt
 
         return rob
 
+    def reset(self):
+        # the dense-time operations have no reset of their own (their buffers are
+        # initialised by their constructors): build a fresh set of operations
+        self.set_ast(self.ast)
+        return
+
     def update_final(self, dataset):
         # check ast exists
         self.exist_ast()
